@@ -1,3 +1,488 @@
 import UvModel.FdLedger
+/-! C15 helper lemmas: the ledger invariant `LInv` is preserved by every descriptor primitive -/
 namespace UvModel.FdLedger
+/-- every descriptor created by libuv carries FD_CLOEXEC -/
+def CxInv (l : Ledger) : Prop := ∀ e ∈ l.led, e.bylib = true → e.cx = true
+
+theorem siteCloexec_true (s : Site) : siteCloexec s = true := by cases s <;> rfl
+
+theorem mem_displace {led : List Entry} {o : Owner} {e : Entry} (h : e ∈ displace led o) :
+    ∃ e0 ∈ led, e.id = e0.id ∧ e.cx = e0.cx ∧ e.bylib = e0.bylib ∧ e.stdio = e0.stdio ∧ e.kind = e0.kind ∧
+      (e.owner = e0.owner ∨ (e.owner = .leaked ∧ e0.owner = o ∧ o.unique = true)) := by
+  unfold displace at h
+  split at h
+  · rw [List.mem_map] at h
+    obtain ⟨e0, h0, rfl⟩ := h
+    refine ⟨e0, h0, ?_⟩
+    split <;> simp_all
+  · exact ⟨e, h, rfl, rfl, rfl, rfl, rfl, Or.inl rfl⟩
+
+theorem mem_setOwner {led : List Entry} {id : Nat} {o : Owner} {e : Entry} (h : e ∈ setOwner led id o) :
+    ∃ e0 ∈ led, e.id = e0.id ∧ e.cx = e0.cx ∧ e.bylib = e0.bylib ∧ e.stdio = e0.stdio ∧ e.kind = e0.kind ∧
+      ((e0.id ≠ id ∧ e.owner = e0.owner) ∨ (e0.id = id ∧ e.owner = o)) := by
+  unfold setOwner at h
+  rw [List.mem_map] at h
+  obtain ⟨e0, h0, rfl⟩ := h
+  refine ⟨e0, h0, ?_⟩
+  split <;> simp_all
+
+theorem cx_exec1raw (l : Ledger) (p : Prim) (h : CxInv l) : CxInv (exec1raw l p) := by
+  intro e he hb
+  cases p with
+  | create site kind o =>
+    simp only [exec1raw, List.mem_append, List.mem_singleton] at he
+    rcases he with he | rfl
+    · obtain ⟨e0, h0, _, hc, hbl, _⟩ := mem_displace he
+      rw [hc]; exact h e0 h0 (hbl ▸ hb)
+    · exact siteCloexec_true _
+  | createGive site kind =>
+    simp only [exec1raw, List.mem_append, List.mem_singleton] at he
+    rcases he with he | rfl
+    · exact h e he hb
+    · exact siteCloexec_true _
+  | userCreate kind stdio =>
+    simp only [exec1raw, List.mem_append, List.mem_singleton] at he
+    rcases he with he | rfl
+    · exact h e he hb
+    · simp at hb
+  | closeOwner o guard =>
+    simp only [exec1raw] at he
+    split at he
+    · exact h e he hb
+    · split at he
+      · obtain ⟨e0, h0, _, hc, hbl, _⟩ := mem_setOwner he
+        rw [hc]; exact h e0 h0 (hbl ▸ hb)
+      · exact h e (List.mem_filter.mp he).1 hb
+  | closeUser id =>
+    simp only [exec1raw] at he
+    split at he
+    · exact h e he hb
+    · split at he
+      · exact h e (List.mem_filter.mp he).1 hb
+      · exact h e he hb
+  | userClose id =>
+    simp only [exec1raw] at he
+    split at he
+    · exact h e he hb
+    · split at he
+      · exact h e (List.mem_filter.mp he).1 hb
+      · exact h e he hb
+  | userCloseAll =>
+    simp only [exec1raw] at he
+    exact h e (List.mem_filter.mp he).1 hb
+  | transfer src dst =>
+    simp only [exec1raw] at he
+    split at he
+    · exact h e he hb
+    · obtain ⟨e1, h1, _, hc, hbl, _⟩ := mem_setOwner he
+      obtain ⟨e0, h0, _, hc0, hbl0, _⟩ := mem_displace h1
+      rw [hc, hc0]; exact h e0 h0 (hbl0 ▸ hbl ▸ hb)
+  | adopt id dst =>
+    simp only [exec1raw] at he
+    split at he
+    · exact h e he hb
+    · split at he
+      · obtain ⟨e1, h1, _, hc, hbl, _⟩ := mem_setOwner he
+        obtain ⟨e0, h0, _, hc0, hbl0, _⟩ := mem_displace h1
+        rw [hc, hc0]; exact h e0 h0 (hbl0 ▸ hbl ▸ hb)
+      · exact h e he hb
+  | say line => exact h e he hb
+
+
+theorem find?_owner {led : List Entry} {o : Owner} {e : Entry} (h : find? led o = some e) : e ∈ led ∧ e.owner = o := by
+  unfold find? at h
+  exact ⟨List.mem_of_find?_eq_some h, by simpa using List.find?_some h⟩
+
+theorem findId?_id {led : List Entry} {id : Nat} {e : Entry} (h : findId? led id = some e) : e ∈ led ∧ e.id = id := by
+  unfold findId? at h
+  exact ⟨List.mem_of_find?_eq_some h, by simpa using List.find?_some h⟩
+
+/-- descriptors 0-2 are never created by libuv and are only ever held by the caller or by a handle's
+    `io_watcher.fd` (or orphaned) -/
+def StdioInv (l : Ledger) : Prop :=
+  ∀ e ∈ l.led, e.stdio = true → e.bylib = false ∧ (e.owner = .user ∨ (∃ h, e.owner = .handle h .io) ∨ e.owner = .leaked)
+
+/-- what libuv did so far: every creation was close-on-exec, every close(2) was on a descriptor that
+    libuv owned at that moment (or that the caller asked it to close) and never on 0-2 -/
+def EvInv (l : Ledger) : Prop :=
+  ∀ ev ∈ l.evs, match ev with
+    | .close e auth => e.stdio = false ∧ (e.owner.libuv = true ∨ auth = true)
+    | .create e => e.cx = true ∧ e.bylib = true
+
+/-- ids identify ledger entries -/
+def IdInv (l : Ledger) : Prop :=
+  (∀ e ∈ l.led, e.id < l.next) ∧ (∀ e1 ∈ l.led, ∀ e2 ∈ l.led, e1.id = e2.id → e1 = e2)
+
+theorem stdio_exec1raw (l : Ledger) (p : Prim) (hok : p.ok = true) (hI : IdInv l) (h : StdioInv l) : StdioInv (exec1raw l p) := by
+  intro e he hs
+  cases p with
+  | create site kind o =>
+    simp only [exec1raw, List.mem_append, List.mem_singleton] at he
+    rcases he with he | rfl
+    · obtain ⟨e0, h0, _, _, hbl, hst, _, ho⟩ := mem_displace he
+      have := h e0 h0 (hst ▸ hs)
+      rcases ho with ho | ⟨ho, _, _⟩
+      · rw [hbl, ho]; exact this
+      · rw [hbl, ho]; exact ⟨this.1, Or.inr (Or.inr rfl)⟩
+    · simp at hs
+  | createGive site kind =>
+    simp only [exec1raw, List.mem_append, List.mem_singleton] at he
+    rcases he with he | rfl
+    · exact h e he hs
+    · simp at hs
+  | userCreate kind stdio =>
+    simp only [exec1raw, List.mem_append, List.mem_singleton] at he
+    rcases he with he | rfl
+    · exact h e he hs
+    · exact ⟨rfl, Or.inl rfl⟩
+  | closeOwner o guard =>
+    simp only [exec1raw] at he
+    split at he
+    · exact h e he hs
+    · split at he
+      · obtain ⟨e0, h0, _, _, hbl, hst, _, ho⟩ := mem_setOwner he
+        have := h e0 h0 (hst ▸ hs)
+        rcases ho with ⟨_, ho⟩ | ⟨_, ho⟩
+        · rw [hbl, ho]; exact this
+        · rw [hbl, ho]; exact ⟨this.1, Or.inl rfl⟩
+      · exact h e (List.mem_filter.mp he).1 hs
+  | closeUser id =>
+    simp only [exec1raw] at he
+    split at he
+    · exact h e he hs
+    · split at he
+      · exact h e (List.mem_filter.mp he).1 hs
+      · exact h e he hs
+  | userClose id =>
+    simp only [exec1raw] at he
+    split at he
+    · exact h e he hs
+    · split at he
+      · exact h e (List.mem_filter.mp he).1 hs
+      · exact h e he hs
+  | userCloseAll =>
+    simp only [exec1raw] at he
+    exact h e (List.mem_filter.mp he).1 hs
+  | transfer src dst =>
+    simp only [exec1raw] at he
+    split at he
+    · exact h e he hs
+    · rename_i em hf
+      obtain ⟨hem, hsrc⟩ := find?_owner hf
+      obtain ⟨e1, h1, _, _, hbl, hst, _, ho⟩ := mem_setOwner he
+      obtain ⟨e0, h0, hid0, _, hbl0, hst0, _, ho0⟩ := mem_displace h1
+      have h00 := h e0 h0 (hst0 ▸ hst ▸ hs)
+      rcases ho with ⟨_, ho⟩ | ⟨hid, ho⟩
+      · rcases ho0 with ho0 | ⟨ho0, _, _⟩
+        · rw [hbl, hbl0, ho, ho0]; exact h00
+        · rw [hbl, hbl0, ho, ho0]; exact ⟨h00.1, Or.inr (Or.inr rfl)⟩
+      · -- the moved entry: cannot be a stdio descriptor (its old owner was `src`)
+        exfalso
+        have : e0 = em := hI.2 e0 h0 em hem (by rw [← hid0]; exact hid)
+        subst this
+        rw [hsrc] at h00
+        simp only [Prim.ok, Bool.and_eq_true, bne_iff_ne, ne_eq] at hok
+        rcases h00.2 with h1 | ⟨hh, h1⟩ | h1 <;> subst h1 <;> simp_all [Owner.libuv]
+  | adopt id dst =>
+    simp only [exec1raw] at he
+    split at he
+    · exact h e he hs
+    · split at he
+      · obtain ⟨e1, h1, _, _, hbl, hst, _, ho⟩ := mem_setOwner he
+        obtain ⟨e0, h0, _, _, hbl0, hst0, _, ho0⟩ := mem_displace h1
+        have h00 := h e0 h0 (hst0 ▸ hst ▸ hs)
+        rcases ho with ⟨_, ho⟩ | ⟨_, ho⟩
+        · rcases ho0 with ho0 | ⟨ho0, _, _⟩
+          · rw [hbl, hbl0, ho, ho0]; exact h00
+          · rw [hbl, hbl0, ho, ho0]; exact ⟨h00.1, Or.inr (Or.inr rfl)⟩
+        · rw [hbl, hbl0, ho]
+          refine ⟨h00.1, ?_⟩
+          cases dst with
+          | handle hh sl => cases sl <;> simp_all [Prim.ok]
+          | _ => simp [Prim.ok] at hok
+      · exact h e he hs
+  | say line => exact h e he hs
+
+
+theorem ev_exec1raw (l : Ledger) (p : Prim) (hok : p.ok = true) (hst : StdioInv l) (h : EvInv l) : EvInv (exec1raw l p) := by
+  intro ev hev
+  cases p with
+  | create site kind o =>
+    simp only [exec1raw, List.mem_cons] at hev
+    rcases hev with rfl | hev
+    · exact ⟨siteCloexec_true _, rfl⟩
+    · exact h ev hev
+  | createGive site kind =>
+    simp only [exec1raw, List.mem_cons] at hev
+    rcases hev with rfl | hev
+    · exact ⟨siteCloexec_true _, rfl⟩
+    · exact h ev hev
+  | userCreate kind stdio => exact h ev hev
+  | closeOwner o guard =>
+    simp only [exec1raw] at hev
+    split at hev
+    · exact h ev hev
+    · rename_i em hf
+      obtain ⟨hem, ho⟩ := find?_owner hf
+      split at hev
+      · exact h ev hev
+      · rename_i hg
+        simp only [List.mem_cons] at hev
+        rcases hev with rfl | hev
+        · simp only [Prim.ok, Bool.and_eq_true, bne_iff_ne, ne_eq] at hok
+          refine ⟨?_, Or.inl (ho ▸ hok.1.1)⟩
+          cases hs : em.stdio with
+          | false => rfl
+          | true =>
+            exfalso
+            have := (hst em hem hs).2
+            rw [ho] at this
+            rcases this with h1 | ⟨hh, h1⟩ | h1
+            · subst h1; simp [Owner.libuv] at hok
+            · subst h1; simp_all
+            · subst h1; simp at hok
+        · exact h ev hev
+  | closeUser id =>
+    simp only [exec1raw] at hev
+    split at hev
+    · exact h ev hev
+    · split at hev
+      · rename_i hc
+        simp only [List.mem_cons] at hev
+        rcases hev with rfl | hev
+        · simp only [Bool.and_eq_true, Bool.not_eq_true', decide_eq_true_eq] at hc
+          exact ⟨hc.2, Or.inr rfl⟩
+        · exact h ev hev
+      · exact h ev hev
+  | userClose id =>
+    simp only [exec1raw] at hev
+    split at hev
+    · exact h ev hev
+    · split at hev <;> exact h ev hev
+  | userCloseAll => exact h ev hev
+  | transfer src dst =>
+    simp only [exec1raw] at hev
+    split at hev <;> exact h ev hev
+  | adopt id dst =>
+    simp only [exec1raw] at hev
+    split at hev
+    · exact h ev hev
+    · split at hev <;> exact h ev hev
+  | say line => exact h ev hev
+
+
+def IdP (led : List Entry) (n : Nat) : Prop :=
+  (∀ e ∈ led, e.id < n) ∧ (∀ e1 ∈ led, ∀ e2 ∈ led, e1.id = e2.id → e1 = e2)
+
+theorem idp_map {led : List Entry} {n : Nat} (f : Entry → Entry) (hf : ∀ e, (f e).id = e.id) (h : IdP led n) :
+    IdP (led.map f) n := by
+  constructor
+  · intro e he
+    obtain ⟨e0, h0, rfl⟩ := List.mem_map.mp he
+    rw [hf]; exact h.1 e0 h0
+  · intro e1 h1 e2 h2 hid
+    obtain ⟨a, ha, rfl⟩ := List.mem_map.mp h1
+    obtain ⟨b, hb, rfl⟩ := List.mem_map.mp h2
+    rw [hf, hf] at hid
+    rw [h.2 a ha b hb hid]
+
+theorem idp_displace {led : List Entry} {n : Nat} (o : Owner) (h : IdP led n) : IdP (displace led o) n := by
+  unfold displace
+  split
+  · exact idp_map _ (by intro e; split <;> rfl) h
+  · exact h
+
+theorem idp_setOwner {led : List Entry} {n : Nat} (id : Nat) (o : Owner) (h : IdP led n) : IdP (setOwner led id o) n :=
+  idp_map _ (by intro e; split <;> rfl) h
+
+theorem idp_filter {led : List Entry} {n : Nat} (p : Entry → Bool) (h : IdP led n) : IdP (led.filter p) n :=
+  ⟨fun e he => h.1 e (List.mem_filter.mp he).1,
+   fun e1 h1 e2 h2 => h.2 e1 (List.mem_filter.mp h1).1 e2 (List.mem_filter.mp h2).1⟩
+
+theorem idp_snoc {led : List Entry} {n : Nat} (e : Entry) (he : e.id = n) (h : IdP led n) : IdP (led ++ [e]) (n + 1) := by
+  constructor
+  · intro x hx
+    rcases List.mem_append.mp hx with hx | hx
+    · exact Nat.lt_succ_of_lt (h.1 x hx)
+    · rw [List.mem_singleton.mp hx, he]; exact Nat.lt_succ_self n
+  · intro a ha b hb hid
+    rcases List.mem_append.mp ha with ha | ha <;> rcases List.mem_append.mp hb with hb | hb
+    · exact h.2 a ha b hb hid
+    · rw [List.mem_singleton.mp hb, he] at hid
+      exact absurd hid (Nat.ne_of_lt (h.1 a ha))
+    · rw [List.mem_singleton.mp ha, he] at hid
+      exact absurd hid.symm (Nat.ne_of_lt (h.1 b hb))
+    · rw [List.mem_singleton.mp ha, List.mem_singleton.mp hb]
+
+theorem id_exec1raw (l : Ledger) (p : Prim) (h : IdInv l) : IdInv (exec1raw l p) := by
+  have h' : IdP l.led l.next := h
+  show IdP (exec1raw l p).led (exec1raw l p).next
+  cases p with
+  | create site kind o => exact idp_snoc _ rfl (idp_displace o h')
+  | createGive site kind => exact idp_snoc _ rfl h'
+  | userCreate kind stdio => exact idp_snoc _ rfl h'
+  | closeOwner o guard =>
+    simp only [exec1raw]
+    split
+    · exact h'
+    · split
+      · exact idp_setOwner _ _ h'
+      · exact idp_filter _ h'
+  | closeUser id =>
+    simp only [exec1raw]
+    split
+    · exact h'
+    · split
+      · exact idp_filter _ h'
+      · exact h'
+  | userClose id =>
+    simp only [exec1raw]
+    split
+    · exact h'
+    · split
+      · exact idp_filter _ h'
+      · exact h'
+  | userCloseAll => exact idp_filter _ h'
+  | transfer src dst =>
+    simp only [exec1raw]
+    split
+    · exact h'
+    · exact idp_setOwner _ _ (idp_displace dst h')
+  | adopt id dst =>
+    simp only [exec1raw]
+    split
+    · exact h'
+    · split
+      · exact idp_setOwner _ _ (idp_displace dst h')
+      · exact h'
+  | say line => exact h'
+
+/-- a loop field / handle field / local variable holds at most one descriptor:
+    no descriptor is owned twice, no field refers to two descriptors -/
+def UniqP (led : List Entry) : Prop :=
+  ∀ e1 ∈ led, ∀ e2 ∈ led, e1.owner = e2.owner → e1.owner.unique = true → e1.id = e2.id
+
+theorem uniq_filter {led : List Entry} (p : Entry → Bool) (h : UniqP led) : UniqP (led.filter p) :=
+  fun e1 h1 e2 h2 => h e1 (List.mem_filter.mp h1).1 e2 (List.mem_filter.mp h2).1
+
+/-- after `displace led o` nothing is owned by the single-valued `o` any more -/
+theorem displace_free {led : List Entry} {o : Owner} (ho : o.unique = true) : ∀ e ∈ displace led o, e.owner ≠ o := by
+  intro e he
+  unfold displace at he
+  rw [if_pos ho] at he
+  obtain ⟨e0, _, rfl⟩ := List.mem_map.mp he
+  split
+  · intro hc; simp at hc; subst hc; simp [Owner.unique] at ho
+  · assumption
+
+theorem uniq_displace {led : List Entry} (o : Owner) (h : UniqP led) : UniqP (displace led o) := by
+  intro e1 h1 e2 h2 hoo hu
+  obtain ⟨a, ha, hida, _, _, _, _, hoa⟩ := mem_displace h1
+  obtain ⟨b, hb, hidb, _, _, _, _, hob⟩ := mem_displace h2
+  rcases hoa with hoa | ⟨hoa, _, _⟩
+  · rcases hob with hob | ⟨hob, _, _⟩
+    · rw [hida, hidb]; exact h a ha b hb (by rw [← hoa, ← hob]; exact hoo) (by rw [← hoa]; exact hu)
+    · rw [hoo, hob] at hu; simp [Owner.unique] at hu
+  · rw [hoa] at hu; simp [Owner.unique] at hu
+
+/-- storing descriptor `id` into field `o` that holds nothing -/
+theorem uniq_setOwner {led : List Entry} (id : Nat) (o : Owner) (hfree : o.unique = true → ∀ e ∈ led, e.owner ≠ o)
+    (h : UniqP led) : UniqP (setOwner led id o) := by
+  intro e1 h1 e2 h2 hoo hu
+  obtain ⟨a, ha, hida, _, _, _, _, hoa⟩ := mem_setOwner h1
+  obtain ⟨b, hb, hidb, _, _, _, _, hob⟩ := mem_setOwner h2
+  rcases hoa with ⟨_, hoa⟩ | ⟨hia, hoa⟩ <;> rcases hob with ⟨_, hob⟩ | ⟨hib, hob⟩
+  · rw [hida, hidb]; exact h a ha b hb (by rw [← hoa, ← hob]; exact hoo) (by rw [← hoa]; exact hu)
+  · exfalso; rw [hoo, hob] at hu; exact hfree hu a ha (by rw [← hoa, hoo, hob])
+  · exfalso; rw [hoa] at hu; exact hfree hu b hb (by rw [← hob, ← hoo, hoa])
+  · rw [hida, hidb, hia, hib]
+
+theorem uniq_snoc {led : List Entry} (e : Entry) (hfree : e.owner.unique = true → ∀ x ∈ led, x.owner ≠ e.owner)
+    (h : UniqP led) : UniqP (led ++ [e]) := by
+  intro a ha b hb hoo hu
+  rcases List.mem_append.mp ha with ha | ha <;> rcases List.mem_append.mp hb with hb | hb
+  · exact h a ha b hb hoo hu
+  · rw [List.mem_singleton.mp hb] at hoo
+    exfalso; exact hfree (hoo ▸ hu) a ha hoo
+  · rw [List.mem_singleton.mp ha] at hoo hu
+    exfalso; exact hfree hu b hb hoo.symm
+  · rw [List.mem_singleton.mp ha, List.mem_singleton.mp hb]
+
+theorem uniq_exec1raw (l : Ledger) (p : Prim) (h : UniqP l.led) : UniqP (exec1raw l p).led := by
+  cases p with
+  | create site kind o =>
+    simp only [exec1raw]
+    exact uniq_snoc _ (fun hu => displace_free hu) (uniq_displace o h)
+  | createGive site kind =>
+    simp only [exec1raw]
+    exact uniq_snoc _ (fun hu => by simp [Owner.unique] at hu) h
+  | userCreate kind stdio =>
+    simp only [exec1raw]
+    exact uniq_snoc _ (fun hu => by simp [Owner.unique] at hu) h
+  | closeOwner o guard =>
+    simp only [exec1raw]
+    split
+    · exact h
+    · split
+      · exact uniq_setOwner _ _ (fun hu => by simp [Owner.unique] at hu) h
+      · exact uniq_filter _ h
+  | closeUser id =>
+    simp only [exec1raw]
+    split
+    · exact h
+    · split
+      · exact uniq_filter _ h
+      · exact h
+  | userClose id =>
+    simp only [exec1raw]
+    split
+    · exact h
+    · split
+      · exact uniq_filter _ h
+      · exact h
+  | userCloseAll => exact uniq_filter _ h
+  | transfer src dst =>
+    simp only [exec1raw]
+    split
+    · exact h
+    · exact uniq_setOwner _ _ (fun hu => displace_free hu) (uniq_displace dst h)
+  | adopt id dst =>
+    simp only [exec1raw]
+    split
+    · exact h
+    · split
+      · exact uniq_setOwner _ _ (fun hu => displace_free hu) (uniq_displace dst h)
+      · exact h
+  | say line => exact h
+
+
+/-- the ledger invariant: everything the four C15 theorems need, preserved by every primitive -/
+structure LInv (l : Ledger) : Prop where
+  cx : CxInv l
+  stdio : StdioInv l
+  ev : EvInv l
+  id : IdInv l
+  uniq : UniqP l.led
+
+theorem linv_empty : LInv {} :=
+  ⟨by intro e he; simp at he, by intro e he; simp at he, by intro e he; simp at he,
+   ⟨by intro e he; simp at he, by intro e he; simp at he⟩, by intro e he; simp at he⟩
+
+theorem linv_exec1 (l : Ledger) (p : Prim) (h : LInv l) : LInv (exec1 l p) := by
+  unfold exec1
+  split
+  · rename_i hok
+    exact ⟨cx_exec1raw l p h.cx, stdio_exec1raw l p hok h.id h.stdio, ev_exec1raw l p hok h.stdio h.ev,
+           id_exec1raw l p h.id, uniq_exec1raw l p h.uniq⟩
+  · exact ⟨h.cx, h.stdio, h.ev, h.id, h.uniq⟩
+
+theorem linv_exec (l : Ledger) (ps : List Prim) (h : LInv l) : LInv (exec l ps) := by
+  unfold exec
+  induction ps generalizing l with
+  | nil => exact h
+  | cons p ps ih => exact ih _ (linv_exec1 l p h)
+
+theorem linv_clearOut (l : Ledger) (h : LInv l) : LInv { l with out := [] } :=
+  ⟨h.cx, h.stdio, h.ev, h.id, h.uniq⟩
+
 end UvModel.FdLedger
